@@ -6,6 +6,7 @@ import (
 	"encoding/json"
 	"fmt"
 	"io"
+	"oras.land/oras-go/v2/errdef"
 	"sort"
 
 	"github.com/opencontainers/go-digest"
@@ -51,6 +52,18 @@ func (t *Target) Push(ctx context.Context, expected ocispec.Descriptor, r io.Rea
 		return err
 	}
 	return t.Inner.Push(ctx, expected, r)
+}
+
+// Delete forwards to the wrapped store when that can delete (an OCI layout can, and the library's client may one day
+// ask it to): a wrapper that hid the capability would make every clean-up a no-op in the simulated world only.
+func (t *Target) Delete(ctx context.Context, target ocispec.Descriptor) error {
+	if err := t.point("delete", target.MediaType); err != nil {
+		return err
+	}
+	if d, ok := t.Inner.(content.Deleter); ok {
+		return d.Delete(ctx, target)
+	}
+	return fmt.Errorf("delete %s: %w", target.Digest, errdef.ErrUnsupported)
 }
 
 func (t *Target) Exists(ctx context.Context, target ocispec.Descriptor) (bool, error) {
@@ -297,7 +310,9 @@ func (s subStore) PushReference(ctx context.Context, d ocispec.Descriptor, r io.
 func (r *RemoteLike) Blobs() registry.BlobStore         { return subStore{r, false} }
 func (r *RemoteLike) Manifests() registry.ManifestStore { return subStore{r, true} }
 
-func (r *RemoteLike) route(d ocispec.Descriptor) subStore { return subStore{r, isManifestType(d.MediaType)} }
+func (r *RemoteLike) route(d ocispec.Descriptor) subStore {
+	return subStore{r, isManifestType(d.MediaType)}
+}
 
 func (r *RemoteLike) Fetch(ctx context.Context, d ocispec.Descriptor) (io.ReadCloser, error) {
 	return r.route(d).Fetch(ctx, d)
